@@ -604,6 +604,12 @@ fn worker(seed: u64, start: u64, stride: u64, end: u64) -> i32 {
         for (_, s) in &o.schedule {
             *site_counts.entry(format!("{s:?}")).or_insert(0) += 1;
         }
+        for e in &o.events {
+            let name = op_name(e.op);
+            let kind = name.split(['#', '@']).next().unwrap_or("").to_string();
+            *site_counts.entry(format!("op.{kind}")).or_insert(0) += 1;
+        }
+        *site_counts.entry(format!("shape.{}", SHAPE.with(|c| c.get()))).or_insert(0) += 1;
         if o.fine {
             fine_runs += 1;
         }
@@ -853,11 +859,13 @@ fn check(tier: &str, seed: u64) -> i32 {
             "runs_per_hour": if wall > 0.0 { (runs as f64 / wall * 3600.0) as u64 } else { 0 },
             "operations": sum("ops"),
             "scheduling_decisions": sum("yields"),
-            "preemptions_by_site": sites,
+            "preemptions_by_site": sites.iter().filter(|(k, _)| !k.starts_with("op.") && !k.starts_with("shape.")).map(|(k, v)| (k.clone(), *v)).collect::<BTreeMap<String, u64>>(),
+            "operations_by_kind": sites.iter().filter(|(k, _)| k.starts_with("op.")).map(|(k, v)| (k.trim_start_matches("op.").to_string(), *v)).collect::<BTreeMap<String, u64>>(),
+            "runs_by_subscriber_shape": sites.iter().filter(|(k, _)| k.starts_with("shape.")).map(|(k, v)| (k.trim_start_matches("shape.").to_string(), *v)).collect::<BTreeMap<String, u64>>(),
             "runs_with_hook_granularity": sum("fine_runs"),
             "runs_with_overlapping_operations": sum("overlaps"),
             "oracle": "per-thread override model + linearizability of the global boolean register (write/flip/read) over the recorded invoke/return stamps, accepted if linearizable under at least one of 12 deterministic variants of the unspecified own-thread side effects",
-            "components": {"real_code": ["tracing-enabled (all functions, real std thread_local!, real std AtomicBool behind the seam)"], "stubs": ["the OS scheduler (replaced by the baton)", "tracing-subscriber layer (not exercised)"]},
+            "components": {"real_code": ["tracing-enabled (all functions and the GlobalEnable layer, real std thread_local!, real std AtomicBool behind the seam)", "tracing / tracing-core / tracing-subscriber (call-site interest cache, dispatchers, registry, per-layer filters) under the layer"], "stubs": ["the OS scheduler (replaced by the baton)", "the fmt output layer of chess-cli (replaced by a counting layer)"]},
             "exhaustive": false
         },
         "assumptions": ["sequential consistency of the baton-serialised execution; weaker-memory behaviours are outside this check", "the hook yields before every access to the global atomic, so a change that adds accesses is explored at that granularity"],
